@@ -2,6 +2,7 @@ package main
 
 import (
 	"fmt"
+	"go/constant"
 	"regexp"
 	"sort"
 	"strings"
@@ -359,4 +360,59 @@ func ruleV6(c *Ctx, prefix string) {
 		c.R.ok(prefix+"V6.FILTER", shortFn(h.fn)+" no-send exits ⇒ ¬filter", c.P.Pos(h.fn.Pos()), shortFn(h.fn), fmt.Sprintf("all %d abstract no-send exits have a false filter atom (or relay re-encapsulation failed)", nex))
 	}
 	_ = strings.Join
+}
+
+// ruleRecvWhole: what the handler parses is the whole datagram. Serve reads
+// into a buffer of at least the largest UDP payload (65507 bytes): a shorter
+// buffer makes the socket layer drop the tail silently and the prefix is
+// parsed as if it were the request. Decided from the constant length the
+// buffer is resliced to right before the read, and from what is handed on.
+func ruleRecvWhole(c *Ctx, rule string, recv string) {
+	fn := c.P.Func("server", recv, "Serve")
+	if fn == nil {
+		c.R.Fatalf("ANCHOR-UNRESOLVED: server.(%s).Serve", recv)
+		return
+	}
+	c.R.Functions[shortFn(fn)] = true
+	n := 0
+	eachInstr(fn, func(in ssa.Instruction) {
+		call, ok := in.(*ssa.Call)
+		if !ok {
+			return
+		}
+		f := call.Call.StaticCallee()
+		if f == nil || f.Name() != "ReadFrom" {
+			return
+		}
+		var buf ssa.Value
+		for _, a := range call.Call.Args {
+			if isByteSlice(a.Type()) {
+				buf = a
+			}
+		}
+		if buf == nil {
+			return
+		}
+		n++
+		key := fmt.Sprintf("%s ReadFrom#%d", shortFn(fn), n)
+		sl, ok := buf.(*ssa.Slice)
+		if !ok || sl.High == nil {
+			c.R.unk(rule, key, c.P.InstrPos(in), shortFn(fn), "the receive buffer is not resliced to a constant length before the read: its size cannot be determined")
+			return
+		}
+		k, ok := sl.High.(*ssa.Const)
+		if !ok || k.Value == nil {
+			c.R.unk(rule, key, c.P.InstrPos(in), shortFn(fn), "the receive buffer length is not a constant")
+			return
+		}
+		v, _ := constant.Int64Val(k.Value)
+		if v < 65507 {
+			c.R.bad(rule, key, c.P.InstrPos(in), shortFn(fn), fmt.Sprintf("datagrams are read into %d bytes, less than the largest UDP payload (65507): a longer request is silently cut and its prefix is parsed as the request", v))
+			return
+		}
+		c.R.ok(rule, key, c.P.InstrPos(in), shortFn(fn), fmt.Sprintf("read into a %d-byte buffer: no datagram is truncated", v))
+	})
+	if n == 0 {
+		c.R.bad(rule, shortFn(fn)+" ReadFrom", c.P.Pos(fn.Pos()), shortFn(fn), "no ReadFrom call found in the receive loop")
+	}
 }
